@@ -76,18 +76,25 @@ func init() {
 // ---------------------------------------------------------------------------------------
 // B1
 
-func runC10B1(c *Ctx) {
-	c.Rule("C10-B1", "every index/slice expression of the byte kernels is in range on every path (bounds engine; exceptions name the table-shape invariant C30-R1 they rest on)", 32)
+// BoundsRangeMapKernels returns the RangeMap kernels of sql/encodings (for C30's rule R5: call
+// BoundsCheckFuncs(c, "C30-R5", BoundsRangeMapKernels(c.P)); the named exceptions in
+// eng_bounds.go rest on C30-R1 and apply under any rule id).
+func BoundsRangeMapKernels(p *Prog) []*types.Func {
+	enc := p.Pkg("sql/encodings")
 	var fns []*types.Func
-	enc := c.P.Pkg("sql/encodings")
-	if enc == nil || c.P.Pkg("sql/mysql_db") == nil {
-		c.Undecided("C10-B1", "packages", 0, "sql/encodings or sql/mysql_db not loaded")
-		return
-	}
 	for _, n := range []string{"RangeMap.Decode", "RangeMap.Encode", "RangeMap.EncodeReplaceUnknown", "RangeMap.DecodeRune", "RangeMap.EncodeRune", "rangeBounds.contains"} {
 		fns = append(fns, LookupFunc(enc, n))
 	}
-	fns = append(fns, LookupFunc(c.P.Pkg("sql/mysql_db"), "validateMysqlNativePassword"))
+	return fns
+}
+
+func runC10B1(c *Ctx) {
+	c.Rule("C10-B1", "every index/slice expression of the byte kernels is in range on every path (bounds engine; exceptions name the table-shape invariant C30-R1 they rest on)", 32)
+	if c.P.Pkg("sql/encodings") == nil || c.P.Pkg("sql/mysql_db") == nil {
+		c.Undecided("C10-B1", "packages", 0, "sql/encodings or sql/mysql_db not loaded")
+		return
+	}
+	fns := append(BoundsRangeMapKernels(c.P), LookupFunc(c.P.Pkg("sql/mysql_db"), "validateMysqlNativePassword"))
 	BoundsCheckFuncs(c, "C10-B1", fns)
 }
 
